@@ -14,10 +14,8 @@ class ColumnControlConstructionTokenTranslator(AbstractTranslator):
             MatrixOfCellIdentifiersTokenTranslator
 
         if token.cell:
-            try:
-                return str(column_index_from_string(token.cell.cell.column))
-            except ValueError:
-                raise E2PyclCellException(f'There is no column `{token.cell.cell.column}`')
+            # the reference is resolved like any other: a sheet that does not exist or an impossible column is rejected
+            return str(excel.fill_cell(token.cell.cell).column + 1)
         elif token.matrix:
             # Mutates matrix, inplace literal cols with digital
             MatrixOfCellIdentifiersTokenTranslator.translate(token.matrix, excel, context)
